@@ -50,6 +50,7 @@ type C09Case struct {
 	Target    C08Step    `json:"target"`
 	KSeeds    []int      `json:"k_seeds"` // extra prefix lengths (mod write size)
 	Only      *FaultSpec `json:"only,omitempty"`
+	TmpMount  bool       `json:"tmp_is_own_filesystem,omitempty"` // /tmp on a tmpfs: renames from there into $HOME fail with EXDEV
 }
 
 func genC09(rt *rapid.T) C09Case {
@@ -72,6 +73,7 @@ func genC09(rt *rapid.T) C09Case {
 	c.Target.Target = rapid.IntRange(0, 11).Draw(rt, "target")
 	c.Target.HasDesc = rapid.Bool().Draw(rt, "hasdesc")
 	c.KSeeds = rapid.SliceOfN(rapid.IntRange(0, 100000), 8, 8).Draw(rt, "kseeds")
+	c.TmpMount = rapid.Bool().Draw(rt, "tmpmount")
 	return c
 }
 
@@ -80,6 +82,9 @@ func quoteS(s string) string { return fmt.Sprintf("%q", s) }
 // preState builds the disk before the target step.
 func (c *C09Case) preState() *pworld {
 	w := newPWorld()
+	if c.TmpMount {
+		w.disk.Mounts = []string{"/tmp"}
+	}
 	w.disk.WriteRaw(pMainDB, yamlOf(c.Main), 0o644)
 	if !c.NBMissing {
 		nb := append([]Cmd(nil), c.Notebook...)
@@ -278,7 +283,7 @@ func runC09(c C09Case) *Outcome {
 		errnos := []syscall.Errno{syscall.ENOSPC, syscall.EDQUOT, syscall.EIO}
 		failErrnos := []syscall.Errno{syscall.EIO, syscall.EACCES, syscall.ENOSPC, syscall.EMFILE, syscall.EROFS}
 		for _, ev := range ref.Trace {
-			interesting := strings.Contains(ev.Path, "personal.yml") || strings.Contains(ev.Path, "search_history.json") || strings.Contains(ev.Path, "cmd-finder") || strings.Contains(ev.Path, "/wtf")
+			interesting := strings.Contains(ev.Path, "personal.yml") || strings.Contains(ev.Path, "search_history.json") || strings.Contains(ev.Path, "cmd-finder") || strings.Contains(ev.Path, "/wtf") || strings.HasPrefix(ev.Path, "/tmp/")
 			if !interesting {
 				continue
 			}
